@@ -400,7 +400,7 @@ inline std::vector<Desc> Family(bool thorough) {
                                 }
             for (u8 main : {0, 2})
                 for (u8 period : {1, 3, 5})
-                    for (u8 q : {0, 3, 6})
+                    for (u8 q : {0, 3, 6, 15, 16})
                         for (u8 line : {0, 3})
                             for (u8 hk : {0, 3})
                                 for (u8 t1 = 0; t1 < 2; ++t1) {
@@ -410,6 +410,17 @@ inline std::vector<Desc> Family(bool thorough) {
                                     v.push_back(d);
                                 }
         }
+        // family 1b: the audio queue completely (or almost) full when the core goes idle
+        for (u8 main : {0, 2})
+            for (u8 period : {1, 2, 4})
+                for (u8 q : {15, 16})
+                    for (u8 line : {0, 3, 4})
+                        for (u8 hk : {0, 3}) {
+                            Desc d{};
+                            d.family = 1, d.main = main, d.hk = hk, d.enabled = 1, d.period = period, d.queued = q, d.bt_line = line;
+                            d.t1_on = 0, d.n = n;
+                            v.push_back(d);
+                        }
         // family 1: audio port
         for (u8 main = 0; main < 4; ++main)
             for (u8 period = 1; period <= 5; ++period)
